@@ -31,7 +31,16 @@ def parse_harnesses(path):
     out = []
     pend_opts, pend_stubs = {}, {}
     file_opts, file_stubs = {}, {}
+    noops, noopifaces = [], []
     for line in open(path):
+        m = re.match(r'^//verif:noop\s+(\S+)', line)
+        if m:
+            noops.append(m.group(1))
+            continue
+        m = re.match(r'^//verif:noopiface\s+(\S+)', line)
+        if m:
+            noopifaces.append(m.group(1))
+            continue
         m = re.match(r'^//verif:opt\s+(.*)$', line)
         if m:
             for kv in m.group(1).split():
@@ -64,6 +73,8 @@ def parse_harnesses(path):
         if m:
             o = dict(file_opts)
             o.update(pend_opts)
+            o['_noops'] = noops
+            o['_noopifaces'] = noopifaces
             s = dict(file_stubs)
             s.update(pend_stubs)
             out.append((m.group(1), o, s))
